@@ -121,6 +121,12 @@ package base
 //@   fs_effects os.Remove
 //@   assert never_while_persisted: at os.Remove#0 :: !persist.Value
 //@   assert dir_never_while_persisted: at os.Remove#1 :: !persist.Value && !nested
+// Whatever Delete removes is the entry's own directory or a file directly in it - never a parent
+// directory, never a path built from anything else (every os.Remove site, present or future).
+//@   assert confined_to_own_directory: at os.Remove :: arg0 == dirof(joined2(entry.state.directory, entry.relativeDataPath)) || (exists n string :: arg0 == joined2(dirof(joined2(entry.state.directory, entry.relativeDataPath)), n))
+
+//@ func FileState.GetDirectory
+//@   ensures result == s.directory
 
 // ---- LRU file map (property C10) ------------------------------------------------------------------
 //
